@@ -493,6 +493,6 @@ func init() {
 			"states = cases judged; non-trivial = cases with inheritance or an alias",
 		Assumptions: []string{"other completion labels are ignored", "for the alias cycles (X->Y->X, and the cycle through unions) only liveness is required"},
 		Flavour:     "prod+overlay", QuickBudgetS: 150, ThoroughBudgetS: 900,
-		Spaces:      func(tier string) []*core.Space { return []*core.Space{c15Space(tier)} },
+		Spaces: func(tier string) []*core.Space { return []*core.Space{c15Space(tier)} },
 	})
 }
